@@ -17,7 +17,8 @@ static void emit(const std::string& label, const Tx& fund, const Tx& tx, uint32_
     sc::Plan P = sc::make_plan(tx, fund, -1, flags);
     if (P.refused || P.out_of_scope) return;
     std::vector<TxOut> spent(tx.vin.size()); spent[P.nin] = fund.vout[tx.vin[P.nin].prev_n];
-    bool valid = verify_input(tx, P.nin, spent, flags) == Err::OK;
+    Err verdict = verify_input(tx, P.nin, spent, flags);
+    bool valid = verdict == Err::OK;
     std::vector<std::string> scripts; for (auto& s : P.scripts) scripts.push_back(hex(s));
     if (P.p2sh) {   // redeem script = the item the scriptSig leaves on top of the stack (not "the data of its last push": OP_1NEGATE and OP_1..OP_16 push a byte too)
         Machine m; m.sv = SigVer::BASE; m.flags = flags; m.script = P.scripts[0];
@@ -26,12 +27,37 @@ static void emit(const std::string& label, const Tx& fund, const Tx& tx, uint32_
     }
     bytes control; if (P.sv == SigVer::TAPSCRIPT) { auto w = tx.vin[P.nin].witness; if (P.annex_present) w.pop_back(); control = w.back(); }
     std::cout << JObj().put("label", label).put("type", P.type).put("tx", hex(ser_tx(tx))).put("txin", hex(ser_tx(fund))).put("sv", int(P.sv)).put("scripts", J::strs(scripts)).put("p2sh", P.p2sh)
-        .put("commit_steps", P.commit_steps).put("control", hex(control)).put("stack", impl::stack_json(P.stack)).put("valid", valid).put("flags", (long long)flags).j().s << "\n";
+        .put("commit_steps", P.commit_steps).put("control", hex(control)).put("stack", impl::stack_json(P.stack)).put("valid", valid).put("err", ref::err_name(verdict)).put("flags", (long long)flags).j().s << "\n";
 }
 
 int main(int argc, char** argv) {
     Args a(argc, argv);
     bool th = a.get("tier", "quick") != "quick";
+    if (a.get("set", "") == "handover") {
+        // hand-made legacy spends whose verdict depends on what one script hands to the next: a conditional opened in the scriptSig (executed
+        // or not) and closed by the scriptPubKey or by the redeem script, an alt stack item carried over, and controls that are valid
+        struct B { const char* name; const char* sig; const char* spk; };
+        for (B b : {B{"scriptSig OP_1 OP_IF, scriptPubKey OP_ENDIF OP_1", "5163", "6851"}, B{"scriptSig OP_0 OP_IF, scriptPubKey OP_ELSE OP_7 OP_ENDIF", "0063", "675768"},
+                    B{"scriptSig OP_0 OP_NOTIF OP_1, scriptPubKey OP_ENDIF", "006451", "68"}, B{"scriptSig OP_1 OP_IF OP_1 OP_ELSE, scriptPubKey OP_ENDIF", "51635167", "68"},
+                    B{"scriptSig OP_1 OP_1 OP_TOALTSTACK, scriptPubKey OP_FROMALTSTACK OP_DROP", "51516b", "6c75"},
+                    B{"scriptSig OP_1 OP_IF OP_1 OP_ENDIF, scriptPubKey OP_NOP", "51635168", "61"}, B{"scriptSig OP_1, scriptPubKey OP_IF OP_1 OP_ENDIF", "51", "635168"},
+                    B{"scriptSig OP_1 OP_1, scriptPubKey OP_TOALTSTACK", "5151", "6b"}}) {
+            gen::Shape sh; sh.nin = 2; sh.pos = 1; sh.fund_vout = 1; sh.nout = 2;
+            gen::Spend S = gen::make_spend("p2pk", sh);
+            S.fund.vout[1].spk = unhex(b.spk); S.tx.vin[1].prev_hash = txid(S.fund); S.tx.vin[1].script_sig = unhex(b.sig);
+            for (uint32_t f : {uint32_t(F_STANDARD), uint32_t(F_STANDARD & ~F_CLEANSTACK)}) emit(std::string("handover: ") + b.name + (f == F_STANDARD ? "" : " without CLEANSTACK"), S.fund, S.tx, f);
+        }
+        // P2SH: the scriptSig leaves a conditional open before pushing the redeem script / the redeem script leaves one open
+        for (B b : {B{"P2SH, scriptSig OP_1 OP_IF <redeem OP_ENDIF OP_1>", "5163", "6851"}, B{"P2SH, scriptSig <redeem OP_1 OP_IF>", "", "5163"}, B{"P2SH, scriptSig OP_1 <redeem OP_IF OP_1 OP_ENDIF>", "51", "635168"}}) {
+            gen::Shape sh; sh.nin = 2; sh.pos = 1; sh.fund_vout = 1; sh.nout = 2;
+            gen::Spend S = gen::make_spend("p2pk", sh);
+            bytes redeem = unhex(b.spk); bytes h = hash160(redeem); bytes spk{0xa9, 0x14}; spk.insert(spk.end(), h.begin(), h.end()); spk.push_back(0x87);
+            bytes sig = unhex(b.sig); bytes pr = push_raw(redeem); sig.insert(sig.end(), pr.begin(), pr.end());
+            S.fund.vout[1].spk = spk; S.tx.vin[1].prev_hash = txid(S.fund); S.tx.vin[1].script_sig = sig;
+            emit(std::string("handover: ") + b.name, S.fund, S.tx, F_STANDARD);
+        }
+        return 0;
+    }
     for (auto& type : gen::all_types()) {
         for (int pathlen : (type == "p2tr-script" ? (th ? std::vector<int>{0, 1, 2, 3, 4, 7} : std::vector<int>{0, 1, 2, 4}) : std::vector<int>{1})) for (bool annex : (gen::is_taproot_type(type) ? std::vector<bool>{false, true} : std::vector<bool>{false})) {
             gen::Shape sh; sh.nin = gen::is_taproot_type(type) ? 1 : 2; sh.pos = sh.nin - 1; sh.fund_vout = 1; sh.nout = 2;
@@ -83,6 +109,20 @@ int main(int argc, char** argv) {
             bytes h = hash160(b.redeem < 0 ? bytes{} : bytes{uint8_t(b.redeem)}); bytes spk{0xa9, 0x14}; spk.insert(spk.end(), h.begin(), h.end()); spk.push_back(0x87);
             S.fund.vout[1].spk = spk; S.tx.vin[1].prev_hash = txid(S.fund); S.tx.vin[1].script_sig = unhex(b.sig);
             emit(std::string("bare: ") + b.name, S.fund, S.tx, F_STANDARD);
+        }
+    }
+    // the same P2SH spends with the P2SH rule switched off (--modify-flags=-P2SH,-CLEANSTACK,-WITNESS): the scriptPubKey is an ordinary hash
+    // comparison then, no redeem script runs and the listing must not announce one; a P2PKH spend under the same flags as control
+    {
+        uint32_t nf = F_STANDARD & ~(F_P2SH | F_CLEANSTACK | F_WITNESS);
+        for (std::string type : {"p2sh-multisig", "p2pkh"}) { gen::Shape sh; sh.nin = 2; sh.pos = 1; sh.fund_vout = 1; sh.nout = 2; gen::Spend S = gen::make_spend(type, sh, 1, 1, false); emit(type + " without the P2SH rule", S.fund, S.tx, nf); }
+        struct B { const char* name; const char* sig; int redeem; };
+        for (B b : {B{"P2SH-shaped output, OP_NOP pushed as data, without the P2SH rule", "510161", 0x61}, B{"P2SH-shaped output, empty item pushed by OP_0, without the P2SH rule", "5100", -1}}) {
+            gen::Shape sh; sh.nin = 2; sh.pos = 1; sh.fund_vout = 1; sh.nout = 2;
+            gen::Spend S = gen::make_spend("p2pk", sh);
+            bytes h = hash160(b.redeem < 0 ? bytes{} : bytes{uint8_t(b.redeem)}); bytes spk{0xa9, 0x14}; spk.insert(spk.end(), h.begin(), h.end()); spk.push_back(0x87);
+            S.fund.vout[1].spk = spk; S.tx.vin[1].prev_hash = txid(S.fund); S.tx.vin[1].script_sig = unhex(b.sig);
+            emit(std::string("bare: ") + b.name, S.fund, S.tx, nf);
         }
     }
     for (auto& v : CHAIN_VECTORS) { Tx f, t; parse_tx(unhex(v.txin), f); parse_tx(unhex(v.tx), t); emit(std::string("chain:") + v.name, f, t, F_STANDARD); }
